@@ -1801,7 +1801,14 @@ class ParseEval(Eval):
             if bound.is_const():
                 shape = {"k": "static", "n": bound.cval()}
             else:
-                shape = self.classify_count(bound, name, lp["pre"].get(carried),
+                pre_c = lp["pre"].get(carried)
+                if pre_c is None:
+                    # the loop indexes into the slice (subrange(n * es, es)) instead of consuming it
+                    bu = self.uncast(bound)
+                    for pv in lp["pre"].values():
+                        if bu.op == "div" and self.uncast(bu.args[0]).key() == self.uncast(pv).key():
+                            pre_c = pv
+                shape = self.classify_count(bound, name, pre_c,
                                             K.cval() if K is not None and K.is_const() else None)
         else:
             shape = {"k": "rest", "elem_bytes": K.cval() if K is not None and K.is_const() else None}
@@ -1816,6 +1823,8 @@ class ParseEval(Eval):
             self.items.append(it)
         it["elem"] = el
         it["shape"] = shape
+        if shape.get("elemsize"):
+            it["elemsize"] = True
         if K is not None and not K.is_const() and lp["nested"] is not None and el and el["k"] == "struct" and per_iter:
             # chunks of a dynamic element size
             self.role(K, ("elemsize", name, 0))
@@ -1834,9 +1843,9 @@ class ParseEval(Eval):
             return {"k": "size", "f": name, "elem_bytes": eb, "v": v}
         if cu.op == "div":
             v, es = cu.args
-            if pre_rem is not None and self.uncast(v).key() == pre_rem.key():
+            if pre_rem is not None and self.uncast(v).key() == self.uncast(pre_rem).key():
                 self.role(es, ("elemsize", name, 0))
-                return {"k": "rest", "elem_bytes": None}
+                return {"k": "rest", "elem_bytes": None, "elemsize": True}
             self.role(v, ("size", name, 0))
             self.role(es, ("elemsize", name, 0))
             return {"k": "size", "f": name, "elem_bytes": None, "v": v}
